@@ -61,6 +61,32 @@ pub fn c17_signed() {
     cover!(a < 0 && d == i64::MIN, "negative extremes reachable");
     forget((ra, rb, rc, rd));
 }
+/// 128-bit integers: a signed one may be rejected (serde's default) or become the int with the same number - never a uint,
+/// never another number; an unsigned one may be rejected or become the uint with the same number.
+pub fn c17_wide_integers() {
+    let (a, b): (i128, u128) = (any(), any());
+    let (ra, rb) = (to_value(a), to_value(b));
+    cover!(a >= 0 && a <= u64::MAX as i128, "a non-negative i128 that would fit a uint");
+    check!(
+        match &ra {
+            Ok(Value::Int(v)) => *v as i128 == a,
+            Ok(_) => false,
+            Err(_) => true,
+        },
+        "a signed 128-bit integer becomes the int with the same number or is rejected"
+    );
+    check!(
+        match &rb {
+            Ok(Value::UInt(v)) => *v as u128 == b,
+            Ok(_) => false,
+            Err(_) => true,
+        },
+        "an unsigned 128-bit integer becomes the uint with the same number or is rejected"
+    );
+    forget(ra);
+    forget(rb);
+}
+
 pub fn c17_unsigned() {
     let (a, b, c, d): (u8, u16, u32, u64) = (any(), any(), any(), any());
     let (ra, rb, rc, rd) = (to_value(a), to_value(b), to_value(c), to_value(d));
@@ -247,6 +273,7 @@ crate::harnesses! {
     #[kani::unwind(6)] c17_char_1_2_bytes: "quick", "ser::to_value -> Serializer::serialize_char", "every char up to U+07FF";
     #[kani::unwind(6)] c17_char_3_4_bytes: "quick", "ser::to_value -> Serializer::serialize_char", "every char from U+0800 (surrogates excluded)";
     #[kani::unwind(2)] c17_signed: "quick", "ser::to_value -> Serializer::serialize_i8/i16/i32/i64; Value::json; serde_json::to_value", "all values of i8, i16, i32, i64";
+    #[kani::unwind(2)] c17_wide_integers: "quick", "ser::to_value -> Serializer::serialize_i128/u128 (serde's default rejects them)", "all values of i128 and u128";
     #[kani::unwind(2)] c17_unsigned: "quick", "ser::to_value -> Serializer::serialize_u8/u16/u32/u64; Value::json", "all values of u8, u16, u32, u64";
     #[kani::unwind(2)] c17_floats_bool: "quick", "ser::to_value -> Serializer::serialize_f32/f64/bool; Value::json", "all f32 and f64 bit patterns, both bools";
     #[kani::unwind(2)] c17_option: "quick", "ser::to_value -> serialize_none/some/unit/unit_struct/newtype_struct", "Option<i16>, Option<Option<i16>>; all i16";
